@@ -243,11 +243,23 @@ func (s *sgSub) closedSoon() bool {
 }
 
 func sgWait(ch chan struct{}, d time.Duration) bool {
+	// a channel that is closed already wins whatever became of the timer meanwhile (a select between two ready
+	// channels picks at random: a goroutine that was not scheduled for the length of a short timeout saw "not closed")
+	select {
+	case <-ch:
+		return true
+	default:
+	}
 	select {
 	case <-ch:
 		return true
 	case <-time.After(d):
-		return false
+		select {
+		case <-ch:
+			return true
+		default:
+			return false
+		}
 	}
 }
 
